@@ -29,7 +29,9 @@ RULE = ('cases = the outcome table of the interception decision procedure, stage
         '(insecure x ca_file x 4 chain situations x 3 name situations, + 5 transport errors x insecure), certificate generation '
         '(5 upstream subjects x 8 cache states, + every openssl command x {exit!=0, timeout, OSError}), client side (6 flush '
         'outcomes x 8 handshake outcomes), relay scripts (tunnel / opt-out / intercepted / answers that flip between calls), a boundary stream '
-        '(non-ASCII and undecodable hosts, 200-byte names, odd IP spellings, ports 0/1/65535); each row '
+        '(non-ASCII and undecodable hosts, 200-byte names, odd IP spellings, ports 0/1/65535), and a fault stream: every outcome of the '
+        'single send()/recv() calls inside an exchange (short write, BlockingIOError, SSLWantWriteError, SSLWantReadError, BrokenPipe, reset, '
+        'timeout, EOF) at each position, intercepted and tunnelled, max_sendbuf_size 16 so that a request needs several upstream writes; each row '
         'is followed by a relay script (client data, flushes, upstream data) so that "nothing is relayed" is observed, not assumed; '
         'rows are crossed with CONNECT hosts (names, IPv4 and bracketed IPv6 literals): rotating in the quick tier, all hosts in the '
         'thorough tier. non-trivial = the CONNECT reached the interception decision with an upstream connection (flags, plugins '
@@ -37,6 +39,8 @@ RULE = ('cases = the outcome table of the interception decision procedure, stage
 TRUSTED = ['openssl / X.509 path validation / the TLS handshake are NOT modelled: their outcomes are oracle inputs (Section variables); '
            'the scripted stand-in used by the correspondence (sim_handshake, mirrored in this module) follows the documented semantics of '
            'ssl.SSLContext (verify_mode, check_hostname, cafile, server_hostname)',
+           'every trust-store / cipher call made on the upstream ssl context after create_default_context is recorded and the effective trust '
+           'store (cafile + later loads) decides the scripted verification; verify_flags / versions / options are compared with a fresh context',
            'CPython ssl.SSLSocket._create detaches the socket it is given before handshaking and closes the new one on failure '
            '(so a failed upstream wrap leaves fileno() == -1); read from Lib/ssl.py 3.12 and confirmed by the live run',
            'thorough tier: real openssl 3.0 + real proxy.py + real TLS origins on loopback as supporting evidence (oracle, not proof)']
@@ -140,6 +144,10 @@ def mk_exc(kind):
         return socket.gaierror(-2, 'Name or service not known')
     if kind == 'block':
         return BlockingIOError(errno.EAGAIN, 'Resource temporarily unavailable')
+    if kind == 'wantread':
+        e = ssl.SSLWantReadError(ssl.SSL_ERROR_WANT_READ, 'The operation did not complete (read)'); e.reason = None; return e
+    if kind == 'wantwrite':
+        e = ssl.SSLWantWriteError(ssl.SSL_ERROR_WANT_WRITE, 'The operation did not complete (write)'); e.reason = None; return e
     raise ValueError(kind)
 
 
@@ -149,11 +157,15 @@ def coq_exn(kind):
     """scripted exception kind -> Coq pyexn term"""
     return {'verify': 'SSLCertVerificationError', 'eof': 'SSLEOFError', 'pipe': 'BrokenPipeError', 'reset': 'ConnectionResetError',
             'timeout': 'TimeoutError', 'oserror': 'OSErrorOther', 'refused': 'OSErrorOther', 'gaierror': 'OSErrorOther',
-            'timeoutexpired': 'TimeoutExpired'}.get(kind) or '(SSLError %s)' % C.coq_bytes(SSL_REASON[kind])
+            'timeoutexpired': 'TimeoutExpired', 'wantread': 'SSLWantReadError', 'wantwrite': 'SSLWantWriteError',
+            'block': 'BlockingIOError_'}.get(kind) or '(SSLError %s)' % C.coq_bytes(SSL_REASON[kind])
 
 
 def exn_code(e):
     """exception instance -> Tls/Intercept.v pyexn_code"""
+    if isinstance(e, ssl.SSLWantReadError): return 14
+    if isinstance(e, ssl.SSLWantWriteError): return 15
+    if isinstance(e, BlockingIOError): return 16
     if isinstance(e, ssl.SSLCertVerificationError): return 1
     if isinstance(e, ssl.SSLEOFError): return 2
     if isinstance(e, ssl.SSLError): return 3
@@ -240,6 +252,32 @@ class World:
     def load_cert_chain(self, ctx, certfile, keyfile=None, password=None):
         ctx._c11_chain = (keyfile, certfile)
 
+    # every further trust-store / cipher call on a context is recorded, not performed
+    def ctx_call(self, name):
+        def f(ctx, *a, **kw):
+            arg = None
+            if name == 'load_verify_locations':
+                arg = kw.get('cafile', a[0] if a else None) or kw.get('capath', a[1] if len(a) > 1 else None) or '<cadata>'
+            elif name == 'set_ciphers':
+                arg = a[0] if a else kw.get('ciphers')
+            entry = name if arg is None else '%s:%s' % (name, arg)
+            ctx._c11_extra = getattr(ctx, '_c11_extra', []) + [entry]
+        return f
+
+    @staticmethod
+    def settings_default(ctx):
+        from proxy.common.constants import DEFAULT_SSL_CONTEXT_OPTIONS
+        ref = World._ref if getattr(World, '_ref', None) is not None else ssl.SSLContext(ssl.PROTOCOL_TLS_CLIENT)
+        World._ref = ref
+        diffs = []
+        if ctx.verify_flags != ref.verify_flags: diffs.append('verify_flags=%r' % ctx.verify_flags)
+        if ctx.minimum_version != ref.minimum_version: diffs.append('minimum_version=%r' % ctx.minimum_version)
+        if ctx.maximum_version != ref.maximum_version: diffs.append('maximum_version=%r' % ctx.maximum_version)
+        if getattr(ctx, 'hostname_checks_common_name', None) != getattr(ref, 'hostname_checks_common_name', None):
+            diffs.append('hostname_checks_common_name')
+        if ctx.options != (ref.options | DEFAULT_SSL_CONTEXT_OPTIONS): diffs.append('options=%r' % ctx.options)
+        return diffs
+
     def wrap_socket(self, ctx, sock, server_side=False, do_handshake_on_connect=True, suppress_ragged_eofs=True,
                     server_hostname=None, session=None):
         c = self.case
@@ -255,13 +293,21 @@ class World:
         vm = {ssl.CERT_NONE: 'CERT_NONE', ssl.CERT_OPTIONAL: 'CERT_OPTIONAL', ssl.CERT_REQUIRED: 'CERT_REQUIRED'}[ctx.verify_mode]
         cafile = getattr(ctx, '_c11_cafile', None)
         cafile = None if cafile is None else str(cafile)
-        self.trace.append(('upstream_wrap', cafile, bool(ctx.check_hostname), vm, server_hostname))
+        extras = list(getattr(ctx, '_c11_extra', []))
+        diffs = self.settings_default(ctx)
+        self.trace.append(('upstream_wrap', cafile, bool(ctx.check_hostname), vm, server_hostname, extras, not diffs, diffs))
         if ctx.check_hostname and server_hostname is None:
             sock.dead = True
             raise ValueError('check_hostname requires server_hostname')
         e = mk_exc(c['transport'])
         if e is None and vm != 'CERT_NONE':
-            chain_ok = c['chain'][0] == 'trusted_by' and cafile == c['chain'][1]
+            # effective trust store = cafile + whatever was loaded into the context afterwards
+            if c['chain'][0] == 'trusted_by':
+                chain_ok = cafile == c['chain'][1] or ('load_verify_locations:' + c['chain'][1]) in extras
+            elif c['chain'][0] == 'platform':
+                chain_ok = 'load_default_certs' in extras or 'set_default_verify_paths' in extras
+            else:
+                chain_ok = False
             name_ok = server_hostname is not None and server_hostname.encode() in c['names']
             if not chain_ok or (ctx.check_hostname and not name_ok):
                 e = mk_exc('verify')
@@ -348,6 +394,7 @@ def run_impl(case):
     from proxy.common.constants import DEFAULT_CA_FILE
     flags.ca_file = PATHS['ca_file'] if fp['ca_file'] else str(DEFAULT_CA_FILE)
     flags.insecure_tls_interception = bool(case['insecure'])
+    flags.max_sendbuf_size = case.get('max_send', 65536)
     w = World(case, certdir)
     CURRENT['answers'] = list(case['answers']); CURRENT['evals'] = 0
     cs = [mk_exc(case['connect'])] if case['connect'] else []
@@ -355,6 +402,10 @@ def run_impl(case):
         mock.patch('ssl.create_default_context', w.create_default_context),
         mock.patch.object(ssl.SSLContext, 'wrap_socket', lambda ctx, sock, **kw: w.wrap_socket(ctx, sock, **kw)),
         mock.patch.object(ssl.SSLContext, 'load_cert_chain', lambda ctx, certfile, keyfile=None, password=None: w.load_cert_chain(ctx, certfile, keyfile, password)),
+        mock.patch.object(ssl.SSLContext, 'load_default_certs', w.ctx_call('load_default_certs')),
+        mock.patch.object(ssl.SSLContext, 'load_verify_locations', w.ctx_call('load_verify_locations')),
+        mock.patch.object(ssl.SSLContext, 'set_default_verify_paths', w.ctx_call('set_default_verify_paths')),
+        mock.patch.object(ssl.SSLContext, 'set_ciphers', w.ctx_call('set_ciphers')),
         mock.patch('proxy.common.pki.run_openssl_command', w.run_openssl_command),
         mock.patch('proxy.http.proxy.server.cert_der_to_dict', w.cert_der_to_dict),
     ]
@@ -419,6 +470,21 @@ def run_impl(case):
                         r = s.step(r=[u.name], w=[])
                         if u.inq and u.inq[0] == ev[2]:
                             u.inq.pop(0)
+                elif k in ('cw', 'uw'):
+                    # one write-ready event with a scripted outcome of the send()
+                    sock = s.client if k == 'cw' else (s.upstreams[0] if s.upstreams else None)
+                    if sock is not None and sock.fileno() >= 0:
+                        sock.send_script[:] = [ev[1] if isinstance(ev[1], int) else mk_exc(ev[1])]
+                        r = s.step(r=[], w=[sock.name])
+                        sock.send_script[:] = []
+                elif k in ('cr', 'ur', 'ueof'):
+                    sock = s.client if k == 'cr' else (s.upstreams[0] if s.upstreams else None)
+                    if sock is not None and sock.fileno() >= 0:
+                        item = sim.EOF if k == 'ueof' else mk_exc(ev[1])
+                        sock.inq.insert(0, item)
+                        r = s.step(r=[sock.name], w=[])
+                        if sock.inq and sock.inq[0] is item:
+                            sock.inq.pop(0)            # descriptor no longer of interest: nothing was read
                 elif k == 'fc':
                     for _ in range(12):
                         if s.torn or not s.h.work.has_buffer() or s.client.dead:
@@ -452,10 +518,12 @@ def snapshot(s, r, certdir):
     up = upstream_of(s)
     if s.torn:
         mode = 3
-    elif h.must_flush_before_shutdown:
-        mode = 1
+    elif getattr(h, 'writes_teared', False):
+        mode = 4
     elif getattr(h, 'reads_teared', False):
         mode = 2
+    elif h.must_flush_before_shutdown:
+        mode = 1
     else:
         mode = 0
     esc = exn_code(r[1]) if isinstance(r, tuple) else None
@@ -496,7 +564,8 @@ def coq_effect(t):
     if k == 'client_queue':
         return 'EClientQueue %s' % B(t[1])
     if k == 'upstream_wrap':
-        return 'EUpstreamWrap (mkWrapCall %s %s %s %s)' % (coq_obytes(t[1]), C.coq_bool(t[2]), t[3], coq_obytes(t[4]))
+        return 'EUpstreamWrap (mkWrapCall %s %s %s %s %s %s)' % (coq_obytes(t[1]), C.coq_bool(t[2]), t[3], coq_obytes(t[4]),
+                                                                 C.coq_list(B(x.encode()) for x in t[5]), C.coq_bool(t[6]))
     if k == 'openssl_req':
         return 'EOpenssl (CmdReqX509 %s %s %s %d %s %s)' % (B(t[1].encode()), B(t[2].encode()), B(t[3].encode()), t[4], B(t[5]), C.coq_bool(t[6]))
     if k == 'openssl_x509toreq':
@@ -520,9 +589,10 @@ def coq_flags(case, bad_gateway):
     def opt(name, val):
         return coq_obytes(val.encode()) if fp[name] else 'None'
     ca_file = PATHS['ca_file'] if fp['ca_file'] else str(DEFAULT_CA_FILE)
-    return '(mkFlags %s %s %s %s %s %s %s)' % (
+    return '(mkFlags %s %s %s %s %s %s %s %d)' % (
         opt('ca_key_file', PATHS['ca_key_file']), opt('ca_cert_dir', CERTS), opt('ca_signing_key_file', PATHS['ca_signing_key_file']),
-        opt('ca_cert_file', PATHS['ca_cert_file']), coq_obytes(ca_file.encode()), C.coq_bool(case['insecure']), B(bad_gateway))
+        opt('ca_cert_file', PATHS['ca_cert_file']), coq_obytes(ca_file.encode()), C.coq_bool(case['insecure']), B(bad_gateway),
+        case.get('max_send', 65536))
 
 
 def coq_subject(peer):
@@ -536,7 +606,8 @@ def coq_script(case, out):
     stripped = strip_brackets(dec(host))
     ips = [stripped.encode()] if is_ip(stripped) else []      # independent oracle for ipaddress.ip_address
     ch = case['chain']
-    chain = '(ChainTrustedBy %s)' % B(ch[1].encode()) if ch[0] == 'trusted_by' else {'untrusted': 'ChainUntrusted', 'expired': 'ChainExpired'}[ch[0]]
+    chain = '(ChainTrustedBy %s)' % B(ch[1].encode()) if ch[0] == 'trusted_by' else \
+        {'untrusted': 'ChainUntrusted', 'expired': 'ChainExpired', 'platform': 'ChainPlatform'}[ch[0]]
     fl = case['flush']
     if fl == 'all':
         flush = '(FlushSent %d)' % len(PKT200)
@@ -563,6 +634,14 @@ def coq_event(ev, n_plug):
     if ev[0] in ('c', 'u'):
         answers = list(ev[1]) + [True] * (n_plug - len(ev[1]))
         return '%s %s %s' % ('ClientData' if ev[0] == 'c' else 'UpstreamData', C.coq_list(C.coq_bool(a) for a in answers), B(ev[2]))
+    if ev[0] in ('cw', 'uw'):
+        o = ev[1]
+        out = '(SendOk %d)' % o if isinstance(o, int) else '(SendRaise %s)' % coq_exn(o)
+        return '%s %s' % ('ClientWrite' if ev[0] == 'cw' else 'UpstreamWrite', out)
+    if ev[0] in ('cr', 'ur'):
+        return '%s %s' % ('ClientRecvRaise' if ev[0] == 'cr' else 'UpstreamRecvRaise', coq_exn(ev[1]))
+    if ev[0] == 'ueof':
+        return 'UpstreamEOF'
     return 'FlushClient' if ev[0] == 'fc' else 'FlushUpstream'
 
 
@@ -611,6 +690,50 @@ def engaged(case):
     return all(case['flags'][k] for k in ('ca_key_file', 'ca_cert_dir', 'ca_signing_key_file', 'ca_cert_file')) and all(case['answers'])
 
 
+def benign_event(ev):
+    """data, flushes, short writes and every would-block answer (mirror of `benign` in Tls/Intercept.v)"""
+    k = ev[0]
+    if k in ('c', 'u', 'fc', 'fu'):
+        return True
+    if k == 'cw':
+        return isinstance(ev[1], int) or ev[1] == 'block'
+    if k == 'uw':
+        return isinstance(ev[1], int) or ev[1] in ('block', 'wantwrite')
+    if k in ('cr', 'ur'):
+        return ev[1] == 'wantread'
+    return False
+
+
+def drained(events):
+    """the script ends with both flushes and nothing is queued after them"""
+    tail = [e[0] for e in events[-2:]]
+    return sorted(tail) == ['fc', 'fu']
+
+
+def parse_requests(data):
+    """[(method, target, host, body)] of a byte stream of complete requests (h11 as independent parser)"""
+    import h11
+    out = []
+    while data:
+        c = h11.Connection(h11.SERVER)
+        c.receive_data(data)
+        ev = c.next_event()
+        if not isinstance(ev, h11.Request):
+            return None
+        body = b''
+        while True:
+            e2 = c.next_event()
+            if isinstance(e2, h11.Data):
+                body += bytes(e2.data)
+            elif isinstance(e2, h11.EndOfMessage):
+                break
+            else:
+                return None
+        out.append((ev.method, ev.target, dict(ev.headers).get(b'host'), body))
+        data = c.trailing_data[0]
+    return out
+
+
 def upstream_cert_good(case):
     """the origin's certificate verifies against the configured trust store and names the CONNECT host"""
     from proxy.common.constants import DEFAULT_CA_FILE
@@ -654,7 +777,7 @@ def oracle(case, out):
     # ---- verification policy, whenever an upstream handshake is attempted
     if len(wraps) > 1:
         return 'more than one upstream TLS handshake for one CONNECT'
-    for _, cafile, check_hostname, vm, sni in wraps:
+    for _, cafile, check_hostname, vm, sni, extras, settings_ok, diffs in wraps:
         if (vm == 'CERT_NONE') != bool(case['insecure']):
             return 'verify_mode is %s although --insecure-tls-interception is %s' % (vm, 'on' if case['insecure'] else 'off')
         if not case['insecure']:
@@ -666,6 +789,10 @@ def oracle(case, out):
             want_ca = PATHS['ca_file'] if case['flags']['ca_file'] else str(DEFAULT_CA_FILE)
             if cafile != want_ca:
                 return 'upstream verified against %r instead of the configured trust store %r' % (cafile, want_ca)
+            if extras:
+                return 'trust store widened beyond --ca-file: further calls on the ssl context: %r' % (extras,)
+            if not settings_ok:
+                return 'verification settings of the ssl context changed: %r' % (diffs,)
         if sni != strip_brackets(dec(host)):
             return 'server_hostname %r is not the CONNECT host %r (IPv6 literals without their brackets)' % (sni, host)
     if not engaged(case) and (wraps or cwraps or ossl):
@@ -700,6 +827,12 @@ def oracle(case, out):
         got_cl = fin['cl_plain'] + b''.join(fin['cl_buf'])
         if fin['up_tls'] or fin['cl_tls']:
             return 'tunnelled bytes were sent inside a TLS session of the proxy'
+        if not all(benign_event(e) for e in case['events']):
+            return None        # a peer reset / closed: only the safety half applies
+        if fin['mode'] != 0:
+            return 'opaque tunnel torn down although no peer failed (only short writes / would-block answers occurred)'
+        if drained(case['events']) and (fin['up_buf'] or fin['cl_buf']):
+            return 'tunnel bytes still queued after both sockets accepted everything'
         if sent_up != b''.join(c_chunks):
             return 'opaque tunnel modified the client->origin byte stream'
         if got_cl != PKT200 + b''.join(u_chunks):
@@ -731,7 +864,12 @@ def oracle(case, out):
     if upgraded:
         if not fin['cl_plain'].startswith(PKT200[:len(fin['cl_plain'])]) or fin['up_plain']:
             return 'plaintext other than the CONNECT reply left the proxy on an intercepted connection'
-        if all(later_on):
+        if all(later_on) and all(benign_event(e) for e in case['events']):
+            if fin['mode'] != 0:
+                return 'intercepted exchange torn down although no peer failed (only short writes / would-block answers occurred)'
+            if drained(case['events']) and (fin['up_buf'] or fin['cl_buf']):
+                return 'bytes still queued after both sockets accepted everything'
+
             # response returns intact; requests arrive with their meaning (C02) over the upstream TLS session
             leftover = PKT200[len(fin['cl_plain']):]
             if fin['cl_tls'] + b''.join(fin['cl_buf']) != leftover + b''.join(u_chunks):
@@ -740,11 +878,12 @@ def oracle(case, out):
             pieces = [b''.join(o) for _, o in out['pipeline']]
             if got != b''.join(pieces):
                 return 'bytes queued for the origin are not what on_client_data produced'
-            joined = b''.join(c_chunks)
-            # every client request must arrive (semantically) exactly once, in order
-            reqs_in = [x + b'\r\n\r\n' for x in joined.split(b'\r\n\r\n') if x]
-            reqs_out = [x + b'\r\n\r\n' for x in got.split(b'\r\n\r\n') if x]
-            if len(reqs_in) != len(reqs_out) or not all(semantically_same_request(a, b) for a, b in zip(reqs_in, reqs_out)):
+            # every client request must arrive (method, target, Host, body) exactly once, in order
+            try:
+                reqs_in, reqs_out = parse_requests(b''.join(c_chunks)), parse_requests(got)
+            except Exception:
+                reqs_in, reqs_out = None, False
+            if reqs_in is None or reqs_in != reqs_out:
                 return 'requests sent inside TLS did not reach the origin with their meaning'
     else:
         # interception failed on the proxy's side (certificate generation / client handshake): must not fall back to relaying
@@ -816,7 +955,7 @@ def table(rng, full=True):
     rows.append(dict(kind='gate', connect='gaierror'))
     for ins in (False, True):
         for ca_given in (True, False):
-            for chain in ('good', 'other_store', 'untrusted', 'expired'):
+            for chain in ('good', 'other_store', 'platform', 'untrusted', 'expired'):
                 for names in ('match', 'other', 'none'):
                     rows.append(dict(kind='upstream', insecure=ins, _ca_given=ca_given, _chain=chain, _names=names))
         for tr in ('alert', 'sslother', 'eof', 'reset', 'timeout', 'oserror'):
@@ -834,6 +973,21 @@ def table(rng, full=True):
     for fl in ('all', 10, 0, 'block', 'pipe', 'oserror'):
         for hs in (None, 'verify', 'eof', 'unknown_ca', 'sslother', 'pipe', 'reset', 'oserror'):
             rows.append(dict(kind='clientwrap', flush=fl, client_hs=hs))
+    # outcomes of the single I/O calls inside an exchange (intercepted and tunnelled), at each position:
+    # would-block answers and short writes must not disturb it; peer failures end it without leaking anything
+    for answers in ([True], [False]):
+        for kind, outcomes, positions in (('uw', ['wantwrite', 'block', 5, 'pipe', 'oserror'], (0, 1, 2)),
+                                          ('ur', ['wantread', 'reset', 'timeout', 'oserror', 'eof'], (0, 1)),
+                                          ('cr', ['wantread', 'reset', 'timeout'], (0, 1)),
+                                          ('cw', ['block', 7, 'pipe', 'wantwrite'], (0, 1))):
+            for o in outcomes:
+                for pos in positions:
+                    if not full and pos == positions[-1] and o in ('pipe', 'oserror', 'timeout', 'block'):
+                        continue
+                    rows.append(dict(kind='fault-' + kind, answers=answers, _fault=(kind, o, pos)))
+    rows.append(dict(kind='fault-deadend', _chain='untrusted', _fault=('cw', 7, 0)))
+    rows.append(dict(kind='fault-deadend', _names='other', _fault=('ur', 'wantread', 0)))
+    rows.append(dict(kind='fault-deadend', transport='reset', _fault=('uw', 'wantwrite', 1)))
     # relay scripts: answers that change between calls (correspondence only), bigger exchanges
     rows.append(dict(kind='relay-flip', answers=[True], _later=[False]))
     rows.append(dict(kind='relay-flip', answers=[False], _later=[True]))
@@ -852,6 +1006,7 @@ def make_case(row, host, rng):
     names = row.pop('_names', None)
     later = row.pop('_later', None)
     long_ = row.pop('_long', False)
+    fault = row.pop('_fault', None)
     c = base_case(host, **row)
     c['flags'] = dict(c['flags'])
     if not ca_given:
@@ -859,7 +1014,8 @@ def make_case(row, host, rng):
     from proxy.common.constants import DEFAULT_CA_FILE
     ca_file = PATHS['ca_file'] if c['flags']['ca_file'] else str(DEFAULT_CA_FILE)
     if chain is not None:
-        c['chain'] = {'good': ['trusted_by', ca_file], 'other_store': ['trusted_by', OTHER_STORE], 'untrusted': ['untrusted'], 'expired': ['expired']}[chain]
+        c['chain'] = {'good': ['trusted_by', ca_file], 'other_store': ['trusted_by', OTHER_STORE], 'platform': ['platform'],
+                      'untrusted': ['untrusted'], 'expired': ['expired']}[chain]
     else:
         c['chain'] = ['trusted_by', ca_file]
     stripped = strip_brackets(dec(host)).encode()
@@ -878,8 +1034,40 @@ def make_case(row, host, rng):
             if i % 2 == 0:
                 ev += [('fu',), ('fc',)]
         ev += [('fu',), ('fc',)]
+    if fault is not None:
+        ev = fault_events(c, rng, fault)
+        c['max_send'] = 16
     c['events'] = ev
     return c
+
+
+def fault_events(c, rng, fault):
+    """an exchange carried out with single send()/recv() events; one of them gets the outcome under test"""
+    kind, o, pos = fault
+    host, port, a = c['host'], c['port'], list(c['answers'])
+    if engaged(c):
+        body = bytes(97 + rng.randrange(26) for _ in range(40))
+        req = b'POST /up HTTP/1.1\r\nHost: %s:%d\r\nContent-Length: %d\r\n\r\n' % (host, port, len(body)) + body
+        resp1 = b'HTTP/1.1 200 OK\r\nContent-Length: 30\r\n\r\n' + b'r' * 10
+        resp2 = b's' * 20
+        req2, resp3 = request_bytes(host, port, 2), response_bytes(2)
+    else:
+        req = bytes([23, 3, 3]) + bytes(rng.randrange(256) for _ in range(50))
+        resp1 = bytes(rng.randrange(256) for _ in range(33))
+        resp2 = bytes(rng.randrange(256) for _ in range(20))
+        req2, resp3 = bytes(rng.randrange(256) for _ in range(9)), bytes(rng.randrange(256) for _ in range(11))
+    f = ('ueof',) if o == 'eof' else (kind, o)
+    def seq(k, items):
+        out = list(items)
+        if kind == k:
+            out.insert(pos, f)
+        return out
+    ev = seq('cr', [('c', a, req)])
+    ev += seq('uw', [('uw', 16), ('uw', 16), ('uw', 16)]) + [('fu',)]
+    ev += seq('ur', [('u', a, resp1)]) + [('u', a, resp2)]
+    ev += seq('cw', [('cw', 16), ('cw', 9)]) + [('fc',)]
+    ev += [('c', a, req2), ('fu',), ('u', a, resp3), ('fu',), ('fc',)]
+    return ev
 
 
 def generate(rng, tier):
@@ -935,17 +1123,26 @@ def _make_pki(d):
     _sh('openssl', 'genrsa', '-out', 'origin.key', '2048', cwd=d)
     good_san = 'DNS:localhost,IP:127.0.0.1,IP:::1'
 
+    # a "platform" CA: present only in the OpenSSL default verify paths of the proxy process (SSL_CERT_FILE), NOT in --ca-file
+    _sh('openssl', 'req', '-x509', '-newkey', 'rsa:2048', '-nodes', '-keyout', 'pca.key', '-out', 'platformca.pem',
+        '-subj', '/CN=C11 platform CA', '-days', '2', '-addext', 'basicConstraints=critical,CA:TRUE', cwd=d)
+    os.makedirs(j('empty-certs-dir'))
+
     def leaf(name, san, signer='oca'):
         _sh('openssl', 'req', '-new', '-key', 'origin.key', '-subj', '/CN=origin.test/O=Origin Org', '-out', name + '.csr', cwd=d)
         open(j(name + '.ext'), 'w').write('subjectAltName=%s\n' % san)
         if signer == 'self':
             _sh('openssl', 'x509', '-req', '-in', name + '.csr', '-signkey', 'origin.key', '-days', '2', '-extfile', name + '.ext', '-out', name + '.pem', cwd=d)
+        elif signer == 'platform':
+            _sh('openssl', 'x509', '-req', '-in', name + '.csr', '-CA', 'platformca.pem', '-CAkey', 'pca.key', '-set_serial', '4242',
+                '-days', '2', '-extfile', name + '.ext', '-out', name + '.pem', cwd=d)
         else:
             _sh('openssl', 'x509', '-req', '-in', name + '.csr', '-CA', 'trust.pem', '-CAkey', 'oca.key', '-set_serial', str(1000 + len(name)),
                 '-days', '2', '-extfile', name + '.ext', '-out', name + '.pem', cwd=d)
     leaf('good', good_san)
     leaf('selfsigned', good_san, signer='self')
     leaf('wrongname', 'DNS:other.example,IP:10.9.9.9')
+    leaf('platform', good_san, signer='platform')
     os.makedirs(j('cadb'))
     open(j('cadb/index.txt'), 'w').close()
     open(j('cadb/serial'), 'w').write('77\n')
@@ -984,7 +1181,7 @@ class _Origin(threading.Thread):
             threading.Thread(target=self.serve, args=(c,), daemon=True).start()
 
     def serve(self, c):
-        c.settimeout(5)
+        c.settimeout(45)       # certificate generation under machine load can take many seconds
         try:
             t = self.ctx.wrap_socket(c, server_side=True)
         except Exception as e:
@@ -1015,7 +1212,7 @@ class _Origin(threading.Thread):
 def _client(proxy_port, host, port, trust_pem):
     """CONNECT host:port through the proxy, verifying TLS handshake for that host against trust_pem, one GET"""
     obs = {}
-    s = socket.create_connection(('127.0.0.1', proxy_port), timeout=10)
+    s = socket.create_connection(('127.0.0.1', proxy_port), timeout=45)
     try:
         target = '%s:%d' % (host, port)
         s.sendall(('CONNECT %s HTTP/1.1\r\nHost: %s\r\n\r\n' % (target, target)).encode())
@@ -1044,7 +1241,7 @@ def _client(proxy_port, host, port, trust_pem):
         req = b'GET /hello?x=1 HTTP/1.1\r\nHost: %s\r\n\r\n' % target.encode()
         obs['request'] = req
         t.sendall(req)
-        t.settimeout(5)
+        t.settimeout(45)
         resp = b''
         try:
             while True:
@@ -1082,9 +1279,13 @@ def live_run():
     failures, notes, count = [], [], 0
     d = tempfile.mkdtemp(prefix='verif-C11-live-')
     origins = {}
+    saved_env = {k: os.environ.get(k) for k in ('SSL_CERT_FILE', 'SSL_CERT_DIR')}
     try:
         _make_pki(d)
-        for cert in ('good', 'selfsigned', 'wrongname', 'expired'):
+        # the proxy process' platform trust store: must play no role, only --ca-file counts
+        os.environ['SSL_CERT_FILE'] = os.path.join(d, 'platformca.pem')
+        os.environ['SSL_CERT_DIR'] = os.path.join(d, 'empty-certs-dir')
+        for cert in ('good', 'selfsigned', 'wrongname', 'expired', 'platform'):
             origins[cert] = _Origin(d, cert); origins[cert].start()
         try:
             origins['good6'] = _Origin(d, 'good', socket.AF_INET6); origins['good6'].start()
@@ -1109,7 +1310,13 @@ def live_run():
                             n0 = len(o.received)
                             trust = os.path.join(d, 'trust.pem' if mode == 'optout' else 'ca.pem')
                             obs = _client(pp, h, o.port, trust)
-                            time.sleep(0.15)
+                            # the origin thread records asynchronously: wait for its record of this exchange
+                            for _ in range(60):
+                                time.sleep(0.05)
+                                if obs.get('response') and any(k == 'data' and x for k, x in o.received[n0:]):
+                                    break
+                                if not obs.get('response') and len(o.received) > n0 and _ >= 3:
+                                    break
                             got = o.received[n0:]
                             count += 1
                             plaintext = b''.join(x for k, x in got if k == 'data')
@@ -1124,7 +1331,8 @@ def live_run():
                                     what = 'certificate generated for an opted-out connection'
                             elif mode == 'secure' and not good:
                                 if plaintext or obs.get('response'):
-                                    what = 'application data relayed although the origin certificate is %s' % cert
+                                    what = 'application data relayed although the origin certificate is %s' % (
+                                        'issued by a CA that is only in the platform trust store, not in --ca-file' if cert == 'platform' else cert)
                                 elif obs.get('handshake') == 'ok':
                                     what = 'client was presented a certificate for an origin whose certificate is %s' % cert
                             else:
@@ -1150,6 +1358,11 @@ def live_run():
                     names = sorted(os.listdir(certdir))
                     notes.append('live %s: cache files %s' % (mode, names))
     finally:
+        for k, v in saved_env.items():
+            if v is None:
+                os.environ.pop(k, None)
+            else:
+                os.environ[k] = v
         for o in origins.values():
             o.stop = True
             try:
